@@ -215,6 +215,7 @@ func runC07(c *report.Ctx) {
 	ruleScanToCursorInclusive(c)
 	ruleGapWindowExtends(c)
 	ruleLayout(c, []string{"wallet-status-value"}, 2)
+	ruleSelectionResetOnDelete(c)
 }
 
 func stripIface(v ssa.Value) ssa.Value {
